@@ -170,6 +170,8 @@ pub struct Program {
     pub n_gates:    usize,
     pub n_holds:    usize,
     pub fire:       Vec<FAct>,
+    /// Acts of the pusher thread (feeds pipe inputs); empty: no such thread
+    pub pusher:     Vec<FAct>,
     /// Gates fired before any thread starts
     pub prefired:   Vec<usize>,
     pub stale_wakes: bool,
@@ -186,7 +188,7 @@ impl Program {
     pub fn new(run_seed: u64, profile: &'static str, template: &'static str) -> Program {
         Program {
             run_seed, profile, template, pool: 1, pool_mode: PoolMode::Warm, n_obj: 1, mortal: None, ops: vec![], threads: vec![], n_gates: 0,
-            n_holds: 0, fire: vec![], prefired: vec![], stale_wakes: false, pipes: vec![], hold_phase: false, held_objs: vec![], panics: false,
+            n_holds: 0, fire: vec![], pusher: vec![], prefired: vec![], stale_wakes: false, pipes: vec![], hold_phase: false, held_objs: vec![], panics: false,
         }
     }
 
@@ -217,6 +219,7 @@ impl Program {
             for a in t { h = hcomb(h, tact_code(a)); }
         }
         for f in &self.fire { h = hcomb(h, fact_code(f)); }
+        for f in &self.pusher { h = hcomb(h, 7 + fact_code(f)); }
         for p in &self.pipes { h = hcomb(h, (p.depth * 100 + p.items.len() * 4 + p.preloaded) as u64 + if p.through { 100000 } else { 0 }); }
         h
     }
@@ -250,6 +253,7 @@ impl Program {
         }
         j.end_arr();
         j.key("firer").arr(); for f in &self.fire { j.string(&format!("{:?}", f)); } j.end_arr();
+        j.key("pusher").arr(); for f in &self.pusher { j.string(&format!("{:?}", f)); } j.end_arr();
         j.key("pipes").arr();
         for p in &self.pipes {
             j.obj();
